@@ -1,9 +1,12 @@
 package checks
 
 import (
-	"reflect"
+	"context"
 	"encoding/json"
 	"fmt"
+	"github.com/coder/websocket"
+	"net/http/httptest"
+	"reflect"
 	"strings"
 	"time"
 
@@ -348,7 +351,8 @@ func (w *wireRender) render(c *wireCase) string {
 		return whitespace(`[]`, env["ws"])
 	}
 	label := map[string]string{"ok": q(t), "lower": q(strings.ToLower(t)), "unknown": `"FOO"`, "number": "1"}[env["label"]]
-	sub := map[string]string{"ok": `"sub1"`, "empty": `""`, "long": q(strings.Repeat("s", 65)), "number": "1"}[env["sub"]]
+	sub := map[string]string{"ok": `"sub1"`, "empty": `""`, "long": q(strings.Repeat("s", 65)), "number": "1",
+		"unicode": "\"s \uFFFD \uFEFF 日本\""}[env["sub"]] // a literal replacement character and a BOM are ordinary characters
 	elems := []string{label}
 	switch t {
 	case "EVENT", "AUTH":
@@ -589,9 +593,102 @@ func C11(run *core.Run) {
 			}
 		}
 	}
+	// the same verdict behind the real gate: every well-formed text, sent over a WebSocket to
+	// NewRelay(recording handler), reaches the handler as the message it parses to, in order
+	{
+		var texts []string
+		for _, b := range baseline {
+			// authenticity is C01's subject: variants of the signed base event whose fields no longer
+			// hash to its id are well-formed but (rightly) refused by the gate's Verify
+			if em, ok := b.msg.(*mocrelay.ClientEventMsg); ok {
+				if v, err := em.Event.Verify(); !v || err != nil {
+					continue
+				}
+			}
+			texts = append(texts, b.text)
+		}
+		if len(texts) > 400 {
+			texts = texts[:400]
+		}
+		gateBehindRelay(run, texts)
+	}
 	run.Set("rule", "(the result of parsing a well-formed text is also compared, for sampled pairs, after a failing parse with the result of parsing it first.) Wire.tla gives every syntactic position of the 5 client message types a status that is ok / bad / open; TLC enumerates each baseline, each ok variant, each whitespace placement and every single-point corruption (thorough: every pair) with Verdict = reject if some position is bad, accept if all ok, any otherwise; each case is rendered as JSON text and judged by ParseClientMsg + ValidClientMsg. distinct_nontrivial = distinct corrupted/open cases")
 	run.Set("evaluations", run.Get("messages_gated"))
 	run.Set("distinct_nontrivial", distinct.Len())
 	run.Set("exhaustive", true)
 	run.Assume = append(run.Assume, "positions the property does not claim (JSON null for an object, since > until, empty subscription id, #e values that are not ids, exponent notation, negative created_at, zero filters) are 'open': either outcome")
+}
+
+// gateBehindRelay sends well-formed texts through Relay.ServeHTTP and compares what the handler receives.
+func gateBehindRelay(run *core.Run, texts []string) {
+	h := &recHandler{emitPlan: func(int) int { return 0 }}
+	opt := mocrelay.NewDefaultRelayOption()
+	opt.RecvRateLimitRate = 1e9
+	opt.RecvRateLimitBurst = 1 << 30
+	srv := httptest.NewServer(mocrelay.NewRelay(h, opt))
+	defer srv.Close()
+	ctx, cancel := context.WithTimeout(context.Background(), 30*time.Second)
+	defer cancel()
+	conn, _, err := websocket.Dial(ctx, "ws"+strings.TrimPrefix(srv.URL, "http"), nil)
+	if err != nil {
+		run.Problem("dial: %v", err)
+		return
+	}
+	defer conn.CloseNow()
+	conn.SetReadLimit(1 << 22)
+	notices := 0
+	done := make(chan error, 1)
+	go func() {
+		for {
+			_, b, err := conn.Read(ctx)
+			if err != nil {
+				done <- err
+				return
+			}
+			if m, err := decodeServer(b); err == nil {
+				switch m := m.(type) {
+				case *mocrelay.ServerNoticeMsg:
+					notices++
+				case *mocrelay.ServerCountMsg:
+					if m.SubscriptionID == sentinelSub {
+						done <- nil
+						return
+					}
+				}
+			}
+		}
+	}()
+	for _, t := range texts {
+		if err := conn.Write(ctx, websocket.MessageText, []byte(t)); err != nil {
+			run.Violate("gate:connection dropped while well-formed messages were being sent", err.Error(), map[string]any{"text": t})
+			return
+		}
+	}
+	if err := conn.Write(ctx, websocket.MessageText, []byte(`["COUNT","`+sentinelSub+`",{}]`)); err != nil {
+		run.Violate("gate:connection dropped while well-formed messages were being sent", err.Error(), nil)
+		return
+	}
+	if err := <-done; err != nil {
+		run.Violate("gate:connection ended before the final reply", err.Error(), nil)
+		return
+	}
+	h.mu.Lock()
+	defer h.mu.Unlock()
+	run.Add("messages_through_the_relay", int64(len(texts)))
+	got := h.received
+	if len(got) > 0 {
+		got = got[:len(got)-1] // the sentinel
+	}
+	for i, t := range texts {
+		want, err := mocrelay.ParseClientMsg([]byte(t))
+		if err != nil {
+			continue
+		}
+		if i >= len(got) || !reflect.DeepEqual(got[i], want) {
+			run.Violate("gate:well-formed message did not reach the handler behind the relay",
+				fmt.Sprintf("message %d of %d (%s): the handler received %d messages, %d NOTICEs were sent", i, len(texts), trunc([]byte(t)), len(got), notices),
+				map[string]any{"text": t})
+			return
+		}
+	}
 }
